@@ -292,4 +292,27 @@ h_misc(int which)
     end_scenario();
 }
 
+
+/* URLs: every parse builds up to seven member strings, some of them twice (an explicit but empty port and the
+ * scheme's default port, a user split at the password separator); create, copy, delete.  Name-service
+ * lookups succeed or fail symbolically (stubs/env_net.c). */
+static const char *const url_texts[] = {
+    "http://h:/p", "http::", "//h:", "a://u:@h:/", "a://u:p@h:7/x?q", "a:/p", "//h", "h:9", "a://@h", "a://h?q", "?q", "", "a://u@h:/?", 0
+};
+
+static void
+h_url(int which)
+{
+    spif_url_t u = spif_url_new_from_ptr(SPIF_CHARPTR(url_texts[which])), d;
+
+    if (u) {
+        d = spif_url_dup(u);
+        spif_url_del(u);
+        if (d) {
+            spif_url_del(d);
+        }
+    }
+    end_scenario();
+}
+
 #include VERIF_ENTRIES
